@@ -15,6 +15,7 @@ fn elements_of(text: &str) -> Result<Result<Vec<FormatElement>, String>, String>
         Err(p) => Err(p.0),
         Ok(Err(e)) => Ok(Err(e)),
         Ok(Ok((_, Expression::Action(Action::PrintFormatted(v))))) => Ok(Ok(v)),
+        Ok(Ok((_, Expression::Action(Action::FilePrintFormatted(_, v))))) => Ok(Ok(v)),
         Ok(Ok((_, other))) => Ok(Err(format!("<<not a printf action: {:?}>>", other))),
     }
 }
@@ -38,7 +39,8 @@ fn check(s: &str, case: &str, rep: &mut Report, enumerated: bool) {
     if s.is_empty() || s.contains('\'') {
         return;
     }
-    let text = format!("-printf '{}'", s);
+    let via_fprintf = s.len() % 10 == 3;
+    let text = if via_fprintf { format!("-fprintf out '{}'", s) } else { format!("-printf '{}'", s) };
     let nontrivial = {
         let cs: Vec<char> = s.chars().collect();
         cs.iter().enumerate().any(|(i, c)| (*c == '%' || *c == '\\') && i + 1 < cs.len())
